@@ -147,7 +147,9 @@ func H_generate() {
 		}
 	}
 	vA("C18", loadCalls == 1, "one load per Generate")
-	vA("C18", len(fsReads) == 0, "Generate does not read the file system (its result cannot depend on previous output)")
+	for _, r := range fsReads {
+		vA("C18", !strings.HasSuffix(r, "wire_gen.go"), "Generate does not read a previous output file (its result cannot depend on it)")
+	}
 }
 
 // H_load: the build flags given to go/packages.
